@@ -13,6 +13,8 @@ property's own predicates on the implementation's outputs):
                  list elements (experiment.states[0] = s), whole-list / schedule assignment, copy(), reset_seed_data: actual contents
                  vs model, values bit-identical to the predicted draws FROM THE CURRENT CIRCUIT's distribution, no outcome of Born-rule
                  probability 0 under the current circuit, seeded value = value of a fresh Experiment built from the current lists
+  big_records    records of 10^4 .. 10^6 data through every data-record entry point x seed kind (size-dependent code paths): seeded record
+                 independent of the global numpy state, global state untouched, record = inversion of the predicted stream's numbers
   seed_types     direct predicates for reset_seed(z) (z = 0 included; fix C14-reset-seed-zero) and numpy-integer seeds (fix
                  C14-to-stream-numpy-integer-seed): function of the seed only, same as the int seed, members of a sequence advance
   chi2           (thorough tier, a TEST, not a proof obligation) fixed-seed chi-square of the two samplers
@@ -247,6 +249,15 @@ def chk_gen_data(ctx, case):
     m = ctx.get_model()
     ps = [float(x) for x in case["ps"]]; n = case["n"]; seed = case["seed"]
     arr = np.array(ps, dtype=np.float64)
+    # memory layout of the array argument: contiguous / a strided view / a reversed view of the reversed data / read-only
+    lay = case.get("layout", "contig")
+    if lay == "strided":
+        big = np.zeros(2 * len(ps)); big[::2] = ps; big[1::2] = 0.5; arr = big[::2]
+    elif lay == "reversed":
+        arr = np.array(ps[::-1], dtype=np.float64)[::-1]
+    elif lay == "readonly":
+        arr.setflags(write=False)
+    keep = arr.copy()
     rs = [float(x) for x in np.random.Generator(np.random.MT19937(seed)).random(n)]      # oracle
     # the tolerance: explicit argument (`atol if atol else Settings.get_atol()`: None and 0.0 mean "use the global setting") or the
     # global setting, which a case may change for the duration of the call
@@ -289,6 +300,9 @@ def chk_gen_data(ctx, case):
             return
     # the same call again, after unrelated global activity: identical (int seed)
     np.random.seed(case["seed"] + 1); np.random.random(3)
+    if not np.array_equal(arr, keep):
+        ctx.violation("gen_data", "data_generator.generate_data_from_prob_dist", "mutates-argument", "prob_dist was changed by the call", case)
+        return
     again = dg.generate_data_from_prob_dist(arr, n, seed, **kw) if atol_set is None else data
     if again != data:
         ctx.violation("gen_data", "data_generator.generate_data_from_prob_dist", "int-seed-not-reproducible", "second call differs", case)
@@ -299,7 +313,8 @@ def sub_gen_data(ctx):
     cases = []
     for _ in range(cn(ctx, 80, 800)):
         ps, _ = rand_probvec(rng)
-        cases.append({"ps": ps, "n": rng.choice([0, 1, 5, 40, 200]), "seed": rng.randint(0, 2 ** 31)})
+        cases.append({"ps": ps, "n": rng.choice([0, 1, 5, 40, 200]), "seed": rng.randint(0, 2 ** 31),
+                      "layout": rng.choice(["contig", "contig", "strided", "reversed", "readonly"])})
     for _ in range(cn(ctx, 12, 60)):                # malformed stream
         ps, _ = rand_probvec(rng, dyadic=True)
         kind = rng.choice(["neg", "sum-high", "sum-low", "tiny-neg"])
@@ -359,8 +374,12 @@ def empi_wellformed(m, data, ns):
 def cmp_empi_one(ctx, sub, site, m, data, ns, case):
     from quara.qcircuit import data_generator as dg
     mdl = ctx.get_model()
+    # container type of the arguments: lists (as documented) / numpy integer arrays / tuples, chosen by the content (deterministic)
+    ct = (len(data) + 3 * len(ns) + (sum(ns) if ns else 0)) % 4 if len(data) > 4 else 0
+    d_arg = [list(data), np.array(data, dtype=np.int64), tuple(data), np.array(data, dtype=np.int32)[::1]][ct]
+    n_arg = [list(ns), list(ns), tuple(ns), np.array(ns, dtype=np.int64) if ns else list(ns)][ct]
     try:
-        impl = ("ok", dg.calc_empi_dist_sequence(m, list(data), list(ns)))
+        impl = ("ok", dg.calc_empi_dist_sequence(m, d_arg, n_arg))
     except ValueError as e:
         impl = ("err", str(e))
     st, val = mdl.try_call("c14.empi_seq", [m, len(ns)] + list(ns) + list(data))
@@ -534,7 +553,40 @@ def objects():
     return _OBJ
 
 
-def make_obj(cls, sd):
+# user-defined schedules (variant 1): a SUBSET of the default ones in a PERMUTED order, so that the schedule index differs from the
+# index of the tester it uses (variant 0 = schedules="all")
+CUSTOM_SCHED = {
+    "qst": [[("state", 0), ("povm", 2)], [("state", 0), ("povm", 0)]],
+    "povmt": [[("state", 3), ("povm", 0)], [("state", 1), ("povm", 0)], [("state", 0), ("povm", 0)]],
+    "qpt": [[("state", 2), ("gate", 0), ("povm", 1)], [("state", 0), ("gate", 0), ("povm", 0)], [("state", 1), ("gate", 0), ("povm", 1)],
+            [("state", 0), ("gate", 0), ("povm", 1)]],
+    "qmpt": [[("state", 1), ("mprocess", 0), ("povm", 2)], [("state", 0), ("mprocess", 0), ("povm", 0)], [("state", 0), ("mprocess", 0), ("povm", 1)]],
+}
+
+
+def nsched(t, var=0):
+    return len(CUSTOM_SCHED[t]) if var and t in CUSTOM_SCHED else NSCHED.get(t, 0)
+
+
+def make_obj(cls, sd, var=0):
+    """construct an Experiment / tomography object with seed_data = sd; var 1: user-defined schedules"""
+    if var and cls in CUSTOM_SCHED:
+        sch = [list(x) for x in CUSTOM_SCHED[cls]]
+        o = objects()
+        with warnings.catch_warnings():
+            warnings.simplefilter("ignore")
+            from quara.protocol.qtomography.standard.standard_qst import StandardQst
+            from quara.protocol.qtomography.standard.standard_povmt import StandardPovmt
+            from quara.protocol.qtomography.standard.standard_qpt import StandardQpt
+            from quara.protocol.qtomography.standard.standard_qmpt import StandardQmpt
+            if cls == "qst": return StandardQst(o["povms"], on_para_eq_constraint=True, schedules=sch, seed_data=sd)
+            if cls == "povmt": return StandardPovmt(o["states"], 3, on_para_eq_constraint=True, schedules=sch, seed_data=sd)
+            if cls == "qpt": return StandardQpt(o["states"][:3], o["povms2"][1:], on_para_eq_constraint=True, schedules=sch, seed_data=sd)
+            if cls == "qmpt": return StandardQmpt(o["states"][:2], o["povms2"], 2, on_para_eq_constraint=True, schedules=sch, seed_data=sd)
+    return make_obj0(cls, sd)
+
+
+def make_obj0(cls, sd):
     """construct an Experiment / tomography object with seed_data = sd"""
     o = objects()
     with warnings.catch_warnings():
@@ -597,7 +649,7 @@ def enc_hop(h):
     if op == "construct": return [4, 0 if h["sd"] is None else 1, h["sd"] or 0]
     if op == "reset_seed": return [5, h["oid"], 0 if h["seed"] is None else 1, h["seed"] or 0]
     t, fn = h["target"], h["fn"]
-    S = NSCHED.get(t, 0)
+    S = h.get("S", NSCHED.get(t, 0))
     pre = [6] + enc_sog(h["sog"])
     if t == "dg":
         if fn == "data": return pre + [10, h["pd"], h["n"]]
@@ -814,7 +866,7 @@ def chk_flow(ctx, case):
         if op == "new_gen":
             gens.append(np.random.Generator(np.random.MT19937(h["z"]))); continue
         if op == "construct":
-            obj = make_obj(h["cls"], h["sd"]); cur[h["cls"]] = obj; made[nobj] = (h["cls"], obj); nobj += 1; pd_cache.pop(h["cls"], None); continue
+            obj = make_obj(h["cls"], h["sd"], h.get("var", 0)); cur[h["cls"]] = obj; made[nobj] = (h["cls"], obj); nobj += 1; pd_cache.pop(h["cls"], None); continue
         if op == "reset_seed":
             made[h["oid"]][1].reset_seed(h["seed"]); continue
         if op in ("global_draw", "gen_draw"):
@@ -895,6 +947,7 @@ def gen_history(rng, hid, focus=None):
     int_seeds = rng.sample(range(10 ** 6, 2 * 10 ** 6), 2)
     targets = [focus] if focus else rng.sample(["dg", "ex", "md", "qst", "povmt", "qpt", "qmpt"], rng.randint(1, 3))
     nobj = 0; made = []
+    cur_var = {}
     for _ in range(rng.randint(4, 9)):
         u = rng.random()
         if u < 0.12:
@@ -906,16 +959,18 @@ def gen_history(rng, hid, focus=None):
         tom = [t for t in targets if t in NSCHED]
         if u < 0.34 and tom:
             cls = rng.choice(tom); sd = rng.choice([None, rng.randint(0, 10 ** 6), 0])
-            hops.append({"op": "construct", "cls": cls, "sd": sd}); made.append((nobj, cls)); nobj += 1; continue
+            var = rng.choice([0, 1]) if cls in CUSTOM_SCHED else 0
+            cur_var[cls] = var
+            hops.append({"op": "construct", "cls": cls, "sd": sd, "var": var}); made.append((nobj, cls)); nobj += 1; continue
         if u < 0.40 and [m for m in made if m[1] != "ex"]:
             oid, cls = rng.choice([m for m in made if m[1] != "ex"])
             hops.append({"op": "reset_seed", "oid": oid, "seed": rng.choice([None, rng.randint(1, 10 ** 6), 0])}); continue
         t = rng.choice(targets)
         v = rng.random()
         sog = ["none"] if v < 0.3 else (["int", rng.choice(int_seeds)] if v < 0.6 else (["gen", rng.randrange(ngen)] if v < 0.9 else ["npint", rng.choice(int_seeds)]))
-        S = NSCHED.get(t, 0)
+        S = nsched(t, cur_var.get(t, 0))
         nn = lambda: rng.choice([1, 2, 7, 30, 100])
-        h = {"op": "call", "target": t, "sog": sog}
+        h = {"op": "call", "target": t, "sog": sog, "S": S}
         if t == "dg":
             fn = rng.choice(["data", "dataset", "empi_seq", "empi_seqs"])
             if fn == "data": h.update(fn=fn, pd=rng.randrange(len(PDS)), n=rng.choice([0, 1, 5, 20]))
@@ -958,36 +1013,43 @@ FN_OF = {"dg": ["data", "dataset", "empi_seq", "empi_seqs"], "ex": ["data", "dat
          "qpt": ["empi_dist", "empi_dists", "empi_dists_seq"], "qmpt": ["empi_dist", "empi_dists", "empi_dists_seq"]}
 
 
-def matrix_history(rng, hid, t, fn, kind):
+def matrix_history(rng, hid, t, fn, kind, var=0):
     """EVERY entry point x seed kind (None / int / numpy int / shared Generator), systematically: the call is made twice with an
     unrelated global draw in between; arguments always ask for several schedules / sample sizes, so that a per-schedule or
     per-sample-size re-creation of the stream (plural entry point re-using the singular one with an int seed) shows up"""
     seed = rng.randint(10 ** 6, 2 * 10 ** 6)
     sog = {"none": ["none"], "int": ["int", seed], "npint": ["npint", seed], "gen": ["gen", 0]}[kind]
-    S = NSCHED.get(t, 0)
-    nn = lambda: rng.choice([7, 30, 100])
+    S = nsched(t, var)
+    # sample sizes: small ones and LARGE ones (a code path chosen by the size of the request must be exercised too; the multinomial
+    # requests cost the same for every n)
+    small = lambda: rng.choice([7, 30, 100])
+    large = lambda: rng.choice([10 ** 5 + 1, 2 * 10 ** 6, 10 ** 9])
 
-    def call():
-        h = {"op": "call", "target": t, "fn": fn, "sog": sog}
+    def call(big):
+        """entry points with ONE sample size: small in the first call, LARGE in the second; lists of sizes always hold both"""
+        one = large() if big else small()
+        h = {"op": "call", "target": t, "fn": fn, "sog": sog, "S": S}
         if t == "dg":
             if fn == "data": h.update(pd=rng.randrange(len(PDS)), n=20)
             elif fn == "dataset": h.update(pds=[rng.randrange(len(PDS)) for _ in range(3)], ns=[5, 20, 5], ss=[sog] * 3, sog=["none"])
-            elif fn == "empi_seq": h.update(pd=rng.randrange(len(PDS)), ns=[nn(), nn(), nn()])
-            else: h.update(pds=[rng.randrange(len(PDS)) for _ in range(3)], lns=[[nn(), nn()] for _ in range(3)])
+            elif fn == "empi_seq": h.update(pd=rng.randrange(len(PDS)), ns=[small(), large(), small()])
+            else: h.update(pds=[rng.randrange(len(PDS)) for _ in range(3)], lns=[[small(), large()] for _ in range(3)])
         elif t == "md":
-            h.update(pd=rng.randrange(len(PDS)), num=nn(), size=3)
+            h.update(pd=rng.randrange(len(PDS)), num=one, size=3)
         elif t == "ex":
             if fn == "data": h.update(sched=rng.randrange(S), n=20)
             elif fn == "dataset": h.update(ns=[20] * S)
-            elif fn == "empi_seq": h.update(sched=rng.randrange(S), ns=[nn(), nn(), nn()])
-            else: h.update(lns=[[nn() for _ in range(S)] for _ in range(2)])
+            elif fn == "empi_seq": h.update(sched=rng.randrange(S), ns=[small(), large(), small()])
+            else: h.update(lns=[[small() for _ in range(S)], [large() for _ in range(S)]])
         else:
-            if fn == "empi_dist": h.update(sched=rng.randrange(S), n=nn())
-            elif fn == "empi_dists": h.update(n=nn())
-            else: h.update(ns=[nn(), nn()])
+            if fn == "empi_dist": h.update(sched=rng.randrange(S), n=one)
+            elif fn == "empi_dists": h.update(n=one)
+            else: h.update(ns=[small(), large()])
         return h
-    hops = [{"op": "seed_global", "z": rng.randint(0, 2 ** 31)}, {"op": "new_gen", "z": rng.randint(1, 10 ** 6)},
-            call(), {"op": "global_draw", "n": 2}, call()]
+    hops = [{"op": "seed_global", "z": rng.randint(0, 2 ** 31)}, {"op": "new_gen", "z": rng.randint(1, 10 ** 6)}]
+    if var:
+        hops.append({"op": "construct", "cls": t, "sd": None, "var": 1})          # the tomography object with user-defined schedules
+    hops += [call(False), {"op": "global_draw", "n": 2}, call(True)]
     return {"id": hid, "hops": hops}
 
 
@@ -1000,6 +1062,8 @@ def sub_flow(ctx):
             for kind in ("none", "int", "npint", "gen"):
                 for _ in range(cn(ctx, 1, 4)):
                     cases.append(matrix_history(rng, "m%d" % hid, t, fn, kind)); hid += 1
+                    if t in CUSTOM_SCHED:      # ... and on an object with user-defined schedules (subset, permuted)
+                        cases.append(matrix_history(rng, "m%d" % hid, t, fn, kind, var=1)); hid += 1
     for focus in ["dg", "ex", "md", "qst", "povmt", "qpt", "qmpt"]:
         for _ in range(cn(ctx, 12, 120)):
             cases.append(gen_history(rng, hid, focus)); hid += 1
@@ -1509,6 +1573,135 @@ def sub_exp_hist(ctx):
     ctx.run_cases("exp_hist", chk_exp_hist, cases)
 
 
+# ====================================================================== large records (size-dependent code paths)
+# The property quantifies over ALL sample sizes; the other sub-checks use records of <= 200 data.  Here every data-record entry point
+# is called with records of 10^4 .. 10^6 (4*10^6 thorough) data, so that a code path chosen by the SIZE of the request is exercised:
+#   * seeded (int / numpy int / Generator): the record is identical under two different global numpy states and the call leaves the
+#     global state untouched;
+#   * every record equals inversion sampling of the random numbers of the stream the dataflow model names (numpy generator re-created
+#     as oracle, one stream.random(n) request per record, consecutive on a shared stream), computed here with sequential float
+#     cumulative sums + searchsorted + last-positive fallback, and - on 150 sampled positions - by the extracted Coq model;
+#   * the stream (global state / shared Generator) is afterwards exactly where that many requests leave it;
+#   * no outcome of probability 0.
+def oracle_record(ps, rs):
+    cums = np.array(float_cums([float(x) for x in ps]))
+    e = np.searchsorted(cums, np.asarray(rs), side="right")
+    e[e == len(ps)] = last_pos([float(x) for x in ps])
+    return e
+
+
+def _gstate_eq(a, b):
+    return a[0] == b[0] and np.array_equal(a[1], b[1]) and tuple(a[2:]) == tuple(b[2:])
+
+
+def chk_big(ctx, case):
+    from quara.qcircuit import data_generator as dg
+    mdl = ctx.get_model()
+    ep, kind, z = case["ep"], case["kind"], case["seed"]
+    ex = make_obj("ex", None) if ep.startswith("ex") else None
+    if ex is not None:
+        with warnings.catch_warnings():
+            warnings.simplefilter("ignore")
+            pds = [np.array(p, dtype=np.float64) for p in ex.calc_prob_dists()]
+    else:
+        pds = [np.array(p, dtype=np.float64) for p in case["pds"]]
+    ns = case["ns"]
+    site = {"dg.data": "data_generator.generate_data_from_prob_dist", "dg.dataset": "data_generator.generate_dataset_from_prob_dists",
+            "ex.data": "Experiment.generate_data", "ex.dataset": "Experiment.generate_dataset"}[ep]
+
+    def run(pre, ndraw):
+        """one session: seed the global state, unrelated draws, the call; returns records, global state before / after, the generator"""
+        np.random.seed(pre); np.random.random(ndraw)
+        g = np.random.Generator(np.random.MT19937(z)) if kind == "gen" else None
+        arg = {"none": None, "int": z, "npint": np.int64(z), "gen": g}[kind]
+        before = np.random.get_state()
+        with warnings.catch_warnings():
+            warnings.simplefilter("ignore")
+            if ep == "dg.data": out = [dg.generate_data_from_prob_dist(pds[0], ns[0], arg)]
+            elif ep == "dg.dataset":
+                # its own seed per record: the same kind for each (a shared Generator is then consumed consecutively)
+                seeds = None if kind == "none" else ([g] * len(ns) if kind == "gen" else [({"int": int, "npint": np.int64}[kind])(z + j) for j in range(len(ns))])
+                out = dg.generate_dataset_from_prob_dists(pds, list(ns), seeds)
+            elif ep == "ex.data": out = [ex.generate_data(case["sched"], ns[0], arg)]
+            else: out = ex.generate_dataset(list(ns), arg)
+        return out, before, np.random.get_state(), g
+
+    (o1, b1, a1, g1) = run(case["pre"][0], 3)
+    (o2, b2, a2, g2) = run(case["pre"][1], 11)
+    total = sum(ns)
+    ctx.count("big_records", key=(ep, kind, tuple(ns)), label="%s/%s/n=%d" % (ep, kind, max(ns)), nontrivial=True)
+    if [len(r) for r in o1] != list(ns):
+        ctx.violation("big_records", site, "shape", "record lengths %s, requested %s" % ([len(r) for r in o1], list(ns)), case); return
+    rec_pds = pds if ep != "ex.data" and ep != "dg.data" else [pds[case.get("sched", 0)] if ep == "ex.data" else pds[0]]
+    # ---- seeded: function of seed and arguments only; global state untouched
+    if kind != "none":
+        if o1 != o2:
+            ctx.violation("big_records", site, "seeded-record-depends-on-global-state",
+                          "%s seed %d, %d data: the record differs between two sessions that differ only in numpy's GLOBAL state (first difference at position %d)"
+                          % (kind, z, max(ns), next(i for r1, r2 in zip(o1, o2) for i, (x, y) in enumerate(zip(r1, r2)) if x != y)), case); return
+        if not _gstate_eq(b1, a1) or not _gstate_eq(b2, a2):
+            ctx.violation("big_records", site, "seeded-call-advances-global-state", "%s seed %d, %d data: numpy's global state is changed by the call" % (kind, z, max(ns)), case); return
+    # ---- the dataflow: which stream, how many requests, in which order
+    if kind == "none":
+        og = np.random.RandomState(); og.set_state(b2); draw = og.random_sample; streams = [(og, draw)] * len(ns)
+    elif kind == "gen" or ep.startswith("ex") or ep == "dg.data":
+        og = np.random.Generator(np.random.MT19937(z)); streams = [(og, og.random)] * len(ns)
+    else:
+        streams = []
+        for j in range(len(ns)):
+            ogj = np.random.Generator(np.random.MT19937(z + j)); streams.append((ogj, ogj.random))
+    for j, (rec, n, p) in enumerate(zip(o2, ns, rec_pds)):
+        rs = streams[j][1](n)
+        exp = oracle_record(p, rs)
+        got = np.asarray(rec)
+        if got.shape != exp.shape or not np.array_equal(got, exp):
+            bad = int(np.argmax(got != exp)) if got.shape == exp.shape else -1
+            ctx.violation("big_records", site, "stream-dataflow:large-record",
+                          "%s seed, record %d of %d data is not the inversion of request #%d of the stream the dataflow model names (first difference at position %d)"
+                          % (kind, j, n, j, bad), case); return
+        if any(p[d] <= 0 for d in set(rec)):
+            ctx.violation("big_records", site, "zero-probability-outcome:large-record", "record %d contains an outcome of probability 0" % j, case); return
+        # the extracted Coq model on sampled positions
+        idx = sorted(set(int(x) for x in np.linspace(0, n - 1, 150)))
+        mv = [int(v) for v in mdl.call("c14.gen_data", [len(idx)], [1e-13] + [float(rs[i]) for i in idx] + [float(x) for x in p])]
+        pf = [float(x) for x in p]
+        if any(mv[t] != rec[i] for t, i in enumerate(idx) if margin(pf, float(rs[i])) >= BAND):
+            ctx.violation("big_records", site, "value:large-record", "record %d differs from the Coq model on a sampled position" % j, case); return
+    # ---- the stream is where the requests leave it
+    if kind == "none" and not _gstate_eq(a2, streams[0][0].get_state()):
+        ctx.violation("big_records", site, "state-perturbed:large-record", "the global state after the call is not the one %d requests leave" % len(ns), case); return
+    if kind == "gen":
+        sa, sb = g2.bit_generator.state, streams[0][0].bit_generator.state
+        if not (np.array_equal(sa["state"]["key"], sb["state"]["key"]) and sa["state"]["pos"] == sb["state"]["pos"]):
+            ctx.violation("big_records", site, "state-perturbed:large-record", "the shared Generator is not in the state %d requests leave" % len(ns), case); return
+
+
+def sub_big_records(ctx):
+    rng = ctx.rng
+    sizes = cn(ctx, [10 ** 4, 10 ** 5, 10 ** 5 + 3, 3 * 10 ** 5], [10 ** 4, 10 ** 5, 10 ** 5 + 3, 3 * 10 ** 5, 10 ** 6])
+    vecs = [[0.5, 0.5], [0.25, 0.0, 0.75], [0.1, 0.2, 0.3, 0.4], [0.0, 1 / 3, 1 / 3, 1 / 3, 0.0]]
+    cases = []
+    for n in sizes:
+        for ep in ("dg.data", "dg.dataset", "ex.data", "ex.dataset"):
+            for kind in ("int", "gen", "none", "npint"):
+                if kind == "npint" and (n != 10 ** 5 or ep != "dg.data"):
+                    continue
+                if n >= 3 * 10 ** 5 and (ep.startswith("ex") and kind != "int" or kind == "none"):
+                    continue                                         # keeps the quick tier cheap; every (entry point, seed kind) is covered at 10^5
+                c = {"ep": ep, "kind": kind, "seed": rng.randint(1, 10 ** 6), "pre": [rng.randint(1, 10 ** 6), rng.randint(1, 10 ** 6)]}
+                if ep == "dg.data": c.update(pds=[rng.choice(vecs)], ns=[n])
+                elif ep == "dg.dataset": c.update(pds=[rng.choice(vecs), rng.choice(vecs)], ns=[n, 50] if rng.random() < 0.5 else [50, n])
+                elif ep == "ex.data": c.update(sched=rng.randrange(NSCHED["ex"]), ns=[n])
+                else: c.update(ns=[50] * (NSCHED["ex"] - 1) + [n])
+                cases.append(c)
+    # one record of 10^6 (4 * 10^6 thorough) through the plain function, int seed and shared Generator
+    for kind in ("int", "gen"):
+        cases.append({"ep": "dg.data", "kind": kind, "seed": rng.randint(1, 10 ** 6), "pre": [rng.randint(1, 10 ** 6), rng.randint(1, 10 ** 6)],
+                      "pds": [[0.25, 0.0, 0.75]], "ns": [cn(ctx, 10 ** 6, 4 * 10 ** 6)]})
+    ctx.sample("big_records", cases[0])
+    ctx.run_cases("big_records", chk_big, cases)
+
+
 # ====================================================================== seed types (direct property predicates)
 def chk_seed_types(ctx, case):
     from quara.qcircuit import data_generator as dg
@@ -1612,8 +1805,8 @@ def sub_chi2(ctx):
 
 
 SUBS = [("rn2data", sub_rn2data), ("fallback", sub_fallback), ("gen_data", sub_gen_data), ("empi_seq", sub_empi_seq),
-        ("flow", sub_flow), ("exp_hist", sub_exp_hist), ("seed_types", sub_seed_types), ("chi2", sub_chi2)]
-FNS = {"rn2data": chk_rn2data, "fallback": chk_fallback, "gen_data": chk_gen_data, "empi_seq": chk_empi_seq, "flow": chk_flow, "exp_hist": chk_exp_hist,
+        ("flow", sub_flow), ("exp_hist", sub_exp_hist), ("big_records", sub_big_records), ("seed_types", sub_seed_types), ("chi2", sub_chi2)]
+FNS = {"rn2data": chk_rn2data, "fallback": chk_fallback, "gen_data": chk_gen_data, "empi_seq": chk_empi_seq, "flow": chk_flow, "exp_hist": chk_exp_hist, "big_records": chk_big,
        "seed_types": chk_seed_types, "chi2": chk_chi2}
 
 
@@ -1665,6 +1858,15 @@ def run(ctx):
         ctx.note("theorem obligations not discharged: %s" % info)
 
 
+FUNC_THM = {"calc_empi_dist_sequence": "gen_calc_empi_dist_sequence_eq", "to_stream": "gen_to_stream_eq", "reset_seed_data": "gen_reset_seed_data_eq",
+            "seed_data": "gen_seed_data_eq", "reset_seed": "gen_reset_seed_eq",
+            "generate_empi_dist_sequence_from_prob_dist": "gen_generate_empi_dist_sequence_eq",
+            "generate_empi_dists_sequence_from_prob_dists": "gen_generate_empi_dists_sequence_eq",
+            "generate_dataset_from_prob_dists": "gen_generate_dataset_eq", "generate_data_from_prob_dist": "gen_generate_data_eq",
+            "generate_empi_dist": "gen_tomo_generate_empi_dist_eq", "generate_empi_dists": "gen_tomo_generate_empi_dists_eq",
+            "generate_empi_dists_sequence": "gen_tomo_generate_empi_dists_sequence_eq"}
+
+
 def regen_c14(ctx):
     """translator tie with this property's own translator: regenerate Gallina definitions of calc_empi_dist_sequence, to_stream,
     Experiment.reset_seed_data, Experiment.seed_data and QTomography.reset_seed from the CURRENT source, compile them, re-check
@@ -1684,7 +1886,10 @@ def regen_c14(ctx):
     r = subprocess.run([sys.executable, os.path.join(V, "gen", "c14_py2coq.py"), os.environ.get("VERIF_REPO", "/repo"),
                         os.path.join(V, "gen", "c14_signatures.json"), gen_v], capture_output=True, text=True, timeout=120)
     if r.returncode != 0:
-        return False, {"theorem": thms[0], "error": "translator rejected the source (outside its subset): " + (r.stdout + r.stderr)[-600:]}
+        msg = (r.stdout + r.stderr)[-600:]
+        fm = re.search(r"in function (\w+) ", msg)
+        thm = FUNC_THM.get(fm.group(1), thms[0]) if fm else thms[0]
+        return False, {"theorem": thm, "error": "translator rejected the source (outside its subset): " + msg}
     q = ["-Q", os.path.join(V, "coq", "theories"), "QV", "-Q", scratch, "QVGen2"]
     r = subprocess.run(["timeout", "300", "coqc"] + q + [gen_v], capture_output=True, text=True)
     if r.returncode != 0:
